@@ -6,3 +6,10 @@ check(
     "Trusts the independent oracle (implemented twice, C and Python, cross-checked on every Hypothesis case) and clang's sanitizers; the native driver links the tree's specpart.c standalone.",
     "DESIGN.md section 5 C04",
 )
+check(
+    "C01",
+    "Hypothesis-generated grids/spectra/datasets compared stat by stat with an independent float64 bin-by-bin evaluation of the defining integrals; exhaustive lattice sweep of the dispersion relation against a Newton solve",
+    "Each run evaluates ~25 statistics on hundreds (quick) / tens of thousands (thorough) of generated datasets covering every grid class named in the property (1..16 frequencies either side of the 0.333 Hz tail threshold, 1..24 directions in any stored order, 1D spectra, 0-3 leading dims, float32/64) and sweeps wavenuma/celerity/wavelen over a 200x200 (f,h) lattice. Exploration: sampled, not exhaustive, except for the lattice.",
+    "Trusts the reference implementation in vf/ref/stats.py (plain loops / math.fsum, no wavespectra import) and the stated tolerances; dm on non-uniform frequency grids is a recorded known finding and is checked there against the weaker unweighted relation.",
+    "DESIGN.md section 5 C01",
+)
